@@ -52,17 +52,21 @@ theorem isPrimeLoop_spec (n : Nat) : ∀ fuel i, n < (i + fuel) * (i + fuel) →
 
 theorem isPrime_small : ∀ n, n ≤ 100 → (isPrime n = true ↔ Nat.Prime n) := by
   intro n hn
-  interval_cases n <;> simp [isPrime, smallPrimes] <;> norm_num
+  interval_cases n <;>
+    simp [isPrime, smallPrimes, Generated.symboltable_isPrime_small, Generated.symboltable_isPrime_smallBound] <;> norm_num
 
 theorem isPrime_correct (n : Nat) : isPrime n = true ↔ Nat.Prime n := by
   by_cases hn : n ≤ 100
   · exact isPrime_small n hn
   · have h1 : ¬ n ≤ 1 := by omega
     have h2 : smallPrimes.contains n = false := by
-      simp only [smallPrimes, List.contains_eq_mem, List.mem_cons, List.not_mem_nil, or_false, decide_eq_false_iff_not]
+      simp only [smallPrimes, Generated.symboltable_isPrime_small, List.contains_eq_mem, List.mem_cons, List.not_mem_nil,
+        or_false, decide_eq_false_iff_not]
       omega
+    have hn' : ¬ n ≤ Generated.symboltable_isPrime_smallBound := by
+      simp only [Generated.symboltable_isPrime_smallBound]; exact hn
     unfold isPrime
-    simp only [h1, if_false, h2, hn, Bool.false_eq_true]
+    simp only [h1, if_false, h2, hn', Bool.false_eq_true]
     rw [isPrimeLoop_spec n n 2 (by nlinarith)]
     rw [Nat.prime_def_le_sqrt]
     constructor
